@@ -949,6 +949,31 @@ impl<'a> BenchContext<'a> {
                 }
             };
 
+            // If user code panics on this thread, perform this thread's
+            // outstanding barrier waits while unwinding. Otherwise the other
+            // threads would wait on the barrier forever instead of letting
+            // the panic be reported by the main thread.
+            struct PendingWaits<'a> {
+                barrier: Option<&'a Barrier>,
+                count: std::cell::Cell<u8>,
+            }
+
+            impl Drop for PendingWaits<'_> {
+                fn drop(&mut self) {
+                    if let Some(barrier) = self.barrier {
+                        if std::thread::panicking() {
+                            for _ in 0..self.count.get() {
+                                barrier.wait();
+                            }
+                        }
+                    }
+                }
+            }
+
+            // Two waits before the timed section and one after it.
+            let pending_waits =
+                PendingWaits { barrier, count: std::cell::Cell::new(3) };
+
             // Synchronize all threads to start timed section simultaneously and
             // clear every thread's memory profiling info.
             //
@@ -956,6 +981,7 @@ impl<'a> BenchContext<'a> {
             // the timing of other threads.
             let sync_threads = |is_start: bool| {
                 sync_impl(barrier, is_start);
+                pending_waits.count.set(if is_start { 1 } else { 0 });
 
                 // Monomorphize implementation to reduce code size.
                 #[inline(never)]
